@@ -233,6 +233,50 @@ def validIndex (n : Nat) (t : List Int) : Bool := t.all (fun x => 0 ≤ x && x <
 /-- `tmp0` of `_control_n_index` (`state.py:129`): the non-control qubits, ascending -/
 def freeQubits (n : Nat) (c : List Int) : List Nat := (List.range n).filter fun x => !c.contains (x : Int)
 
+/-! ### `reduce_shape_index` (`state.py:10-49`) and the slice it is used for (`state.py:135,163-164`) -/
+
+/-- consecutive runs of `(shape, index)` pairs with the same `index is None` (`itertools.groupby`, `state.py:12`) -/
+def groupRuns : List (Nat × Option Nat) → List (List (Nat × Option Nat))
+  | [] => []
+  | a :: l =>
+    match groupRuns l with
+    | (b :: g) :: r => if a.2.isNone == b.2.isNone then (a :: b :: g) :: r else [a] :: (b :: g) :: r
+    | _ => [[a]]
+
+/-- `_reduce_shape_index_hf0`: a run of `None`s becomes one axis of the product size with a full slice; a run of
+integers becomes one axis of the product size with the row-major flat index of the integers
+(`np.dot(cumprod([1]+shape[::-1])[:-1], index[::-1])`). -/
+def reduceShapeIndex (shape : List Nat) (index : List (Option Nat)) : List Nat × List (Option Nat) :=
+  let runs := groupRuns (shape.zip index)
+  (runs.map fun g => (g.map (·.1)).foldl (· * ·) 1,
+   runs.map fun g => match g with
+     | (_, none) :: _ => none
+     | _ => some (g.foldl (fun acc p => acc * p.1 + p.2.getD 0) 0))
+
+/-- flat positions (row-major, increasing) of `arr.reshape(shape)[index].reshape(-1)`: `some v` fixes an axis,
+`none` is a full slice -/
+def slicePositions : List Nat → List (Option Nat) → List Nat
+  | d :: ds, i :: is =>
+    let w := ds.foldl (· * ·) 1
+    let sub := slicePositions ds is
+    match i with
+    | some v => sub.map (v * w + ·)
+    | none => (List.range d).flatMap fun a => sub.map (a * w + ·)
+  | _, _ => [0]
+
+/-- `shape0, index_tuple0` of `_control_n_index` (`state.py:132-135`): `index_list[x] = 1` on the controls -/
+def controlSlice (n : Nat) (c : List Nat) : List Nat × List (Option Nat) :=
+  reduceShapeIndex (List.replicate n 2) ((List.range n).map fun q => if c.contains q then some 1 else none)
+
+/-- the positions the control slice of `apply_control_n_gate` reads and writes -/
+def controlPositions (n : Nat) (c : List Nat) : List Nat :=
+  let (shape0, index0) := controlSlice n c
+  slicePositions shape0 index0
+
+/-- bitwise description: the flat positions (increasing) whose control bits are all 1 -/
+def controlPositionsBitwise (n : Nat) (c : List Nat) : List Nat :=
+  (List.range (2 ^ n)).filter fun p => c.all fun q => p.testBit (n - 1 - q)
+
 /-- target tuple as a function; total (`Fin.ofNat` reduces mod `n+1`), the identity on valid tuples -/
 def mkTarget (n : Nat) (t : List Int) : Fin t.length → Fin (n + 1) :=
   fun j => Fin.ofNat (n + 1) (t.getD j.val 0).toNat
